@@ -207,7 +207,7 @@ func gParse(c *Ctx, mode int, tag string) {
 	}
 	if nStep > 0 {
 		c.Harnesses = append(c.Harnesses, "harness/gen/step.go.txt:VerifStep (emitted next to each generated Go parser)")
-		c.Bound("step lemma, inputs of any length: from every configuration whose stack spells a path of the emitted automaton (depth <= %d, up to %d slots, stale slots arbitrary, values arbitrary int64) and every lookahead code, the emitted Go driver performs exactly the LR machine's moves over the emitted table until the next token request / accept / error (%d grammar-variant pairs); parses whose stack grows beyond %d entries are outside this lemma (they are covered up to N tokens by the exploration from the initial configuration)", D, D, nStep, D)
+		c.Bound("step lemma, inputs of any length: from every configuration whose stack spells a path of the emitted automaton (depth <= %d, up to %d slots, stale slots holding state 1 or the last state, values arbitrary int64) and every lookahead code, the emitted Go driver performs exactly the LR machine's moves over the emitted table until the next token request / accept / error (%d grammar-variant pairs); parses whose stack grows beyond %d entries are outside this lemma (they are covered up to N tokens by the exploration from the initial configuration)", D, D, nStep, D)
 		c.Assumptions = append(c.Assumptions, "step lemma: slices in gosym are host slices (length, capacity and aliasing after append follow the Go runtime's growth policy for the interpreter's element size - the same doubling as the real element type for the sizes explored)")
 	} else if g.NoStep != "" {
 		c.Outside = append(c.Outside, "step lemma not established on this tree (the harness writes the driver's stack variables by name and they changed: "+g.NoStep+")")
